@@ -64,6 +64,8 @@ Definition name_ClientExpired := tag "ClientExpired".
 Definition name_Disconnect := tag "Disconnect".
 Definition name_expire := tag "expire".
 Definition name_PANIC := tag "PANIC".
+Definition name_QosDropped := tag "QosDropped".
+Definition name_Unsubscribed := tag "Unsubscribed".
 
 Definition as_hook_out (v : val) : option (list out) :=
   match v with
@@ -73,6 +75,14 @@ Definition as_hook_out (v : val) : option (list out) :=
             else if beq_bytes nm name_Disconnect then [ODisconnected id (beq_bytes ex name_expire)]
             else [])
   | _ => None
+  end.
+Definition as_hook_ev (v : val) : list hev :=
+  match v with
+  | VL [VB nm; VB id; VB ex] =>
+      if beq_bytes nm name_QosDropped then [HDropped id ex]
+      else if beq_bytes nm name_Unsubscribed then [HUnsub id ex]
+      else []
+  | _ => []
   end.
 Definition hook_is_panic (v : val) : bool :=
   match v with VL [VB nm; _; _] => beq_bytes nm name_PANIC | _ => false end.
@@ -132,14 +142,15 @@ Definition derive_wills (ops_rev : list op) (outs : list out) : list out :=
             | _ => [] end) outs.
 
 (* one step of the case: (op outs hooks snap) *)
-Record rstep := { r_op : op; r_outs : list out; r_snap : snap; r_panic : bool }.
+Record rstep := { r_op : op; r_outs : list out; r_hooks : list hev; r_snap : snap; r_panic : bool }.
 
 Definition as_rstep (v : val) : option rstep :=
   match v with
   | VL [o; VL outs; VL hooks; sn] =>
       do o' <- as_op o; do outs' <- map_opt as_conn_out outs; do hk <- map_opt as_hook_out hooks;
       do sn' <- as_lsnap sn;
-      Some {| r_op := o'; r_outs := concat outs' ++ concat hk; r_snap := sn'; r_panic := existsb hook_is_panic hooks |}
+      Some {| r_op := o'; r_outs := concat outs' ++ concat hk; r_hooks := flat_map as_hook_ev hooks; r_snap := sn';
+              r_panic := existsb hook_is_panic hooks |}
   | _ => None
   end.
 
@@ -148,7 +159,7 @@ Fixpoint build_obs (ops_rev : list op) (pre : snap) (l : list rstep) : list obs 
   | [] => []
   | r :: t =>
       let ops' := r_op r :: ops_rev in
-      {| b_op := r_op r; b_outs := r_outs r ++ derive_wills ops' (r_outs r); b_pre := pre; b_post := r_snap r |}
+      {| b_op := r_op r; b_outs := r_outs r ++ derive_wills ops' (r_outs r); b_hooks := r_hooks r; b_pre := pre; b_post := r_snap r |}
       :: build_obs ops' (r_snap r) t
   end.
 
@@ -238,6 +249,15 @@ Definition snap_val (s : snap) : val :=
       VL (map (fun e => VL [VB (fst (fst e)); zval (snd (fst e)); msg_val (snd e)]) (sn_wills s));
       VL (map (fun e => VL [VB (fst e); VB (snd e)]) (sn_retained s))].
 
+Definition beq_hev (a b : hev) : bool :=
+  match a, b with
+  | HDropped i x, HDropped j y => beq_bytes i j && beq_bytes x y
+  | HUnsub i x, HUnsub j y => beq_bytes i j && beq_bytes x y
+  | _, _ => false
+  end.
+Definition hev_val (h : hev) : val :=
+  match h with HDropped i x => VL [VB (tag "dropped"); VB i; VB x] | HUnsub i x => VL [VB (tag "unsub"); VB i; VB x] end.
+
 (* replay: first step on which the model differs, as (step, what, model's view) *)
 Fixpoint replay (k : caps) (i : N) (s : state) (h : list obs) : option (N * N * val) :=
   match h with
@@ -245,6 +265,9 @@ Fixpoint replay (k : caps) (i : N) (s : state) (h : list obs) : option (N * N * 
   | b :: r =>
       let (s', outs) := step k s (b_op b) in
       if negb (outs_match (b_outs b) outs) then Some (i, 10, VL [VL (map out_val outs); VL (map out_val (b_outs b))])
+      else if (match b_op b with OConnect _ _ _ _ _ => true | _ => false end) &&
+              negb (meq beq_hev (b_hooks b) (hook_events k s (b_op b)))
+      then Some (i, 11, VL (map hev_val (hook_events k s (b_op b))))
       else
         let d := snap_diff (b_post b) (snap_of s') in
         if negb (d =? 0) then Some (i, d, snap_val (snap_of s')) else replay k (i + 1) s' r
